@@ -107,6 +107,18 @@ pub fn build_pool(w: &W) -> Result<MPool, String> {
 
 impl Director {
     pub fn new(w: W, pool: MPool) -> Director {
+        // the built pool says what it was configured with
+        {
+            let (t, st, closed) = (pool.timeouts(), pool.status(), pool.is_closed());
+            let mut wl = lock(&w);
+            let cfg = wl.cfg.clone();
+            if t.wait != cfg.wait || t.create != cfg.create || t.recycle != cfg.recycle {
+                wl.viol(&["C10", "*"], "timeouts_accessor", format!("pool built with wait={:?} create={:?} recycle={:?} but timeouts() says {:?}", cfg.wait, cfg.create, cfg.recycle, t));
+            }
+            if st.max_size != cfg.max_size || st.size != 0 || st.available != 0 || st.waiting != 0 || closed {
+                wl.viol(&["C11", "C08", "*"], "fresh_pool_status", format!("freshly built pool (max_size {}) reports {:?}, closed={}", cfg.max_size, st, closed));
+            }
+        }
         Director {
             w,
             pool: Some(pool),
